@@ -45,8 +45,8 @@ SHARDS = {"quick": 16, "thorough": 16}
 RULE = ("Hypothesis recipes of single-function modules: riscv_func.func bodies of rv32.li / riscv.mv / add / sub / "
         "mul / and / or / xor / addi / rv32.slli / fcvt.s.w / fcvt.w.s / fmv.s / fadd.s / fmul.s / "
         "riscv.parallel_mov / get_register, nested riscv_scf.for (depth <= 2) with 0..3 iter_args of int/float "
-        "kind, static or dynamic step, trip counts 0..4, yields of body values, block arguments (swaps) and "
-        "outer values; x86_func.func bodies of x86 di.mov / ds.mov / rs.{add,sub,imul,and,or,xor} / "
+        "kind, static or dynamic step, trip counts 0..5, inits that are shared outer values or copies made for "
+        "the loop, yields of body values, block arguments (swaps, iv) and outer values; x86_func.func bodies of x86 di.mov / ds.mov / rs.{add,sub,imul,and,or,xor} / "
         "r.{neg,not,inc,dec} / ri.{add,sub,and,or,xor} / dsi.imul / ss.cmp / ds.vpbroadcastq / dss.vaddpd / "
         "rss.vfmadd231pd / x86.parallel_mov / get_register and x86_scf.for (static or dynamic ub/step), after "
         "x86-regalloc-legalize; 'pressure' recipes define 6..40 values first and consume them afterwards. Some "
@@ -67,7 +67,11 @@ RULE = ("Hypothesis recipes of single-function modules: riscv_func.func bodies o
         "the operand's register; x86 in/out ops write the register of their in/out operand; loop block "
         "arguments / results are never written (as in the lowering); a value written to zero must be 0. "
         "Non-trivial: >= 6 values simultaneously live in non-zero registers, or a loop with an iter_arg, or a "
-        "pre-allocated register.")
+        "pre-allocated register. Mismatch signatures name the sub-check, arch and a causal feature (loop / "
+        "prealloc / limited_pool / inout / plain) derived from the register and values involved, plus chain "
+        "(overlap: the register belongs to a loop-carried group two members of which are live at once in the "
+        "allocator's own view; clean; no), excluded (was the pre-allocated register seen by "
+        "all_used_registers), infinite, stale (dangling operands present).")
 ASSUMPTIONS = [
     "register semantics of riscv_scf.for / x86_scf.for are those of lower-riscv-scf-to-labels / "
     "convert-x86-scf-to-x86: iv := lb, compare with ub before the first and after every iteration, iv += step at "
@@ -1695,7 +1699,7 @@ def x86_random(draw):
 def checks(h):
     def body(recipe):
         run_one(h, recipe)
-    n = h.scale(70, 2200)
+    n = h.scale(120, 2200)
     h.hyp("riscv_random", rv_random(), body, max_examples=n * 3, seed_salt=1)
     h.hyp("riscv_pressure", pressure("riscv", 24 if h.quick else 40), body, max_examples=n, seed_salt=2)
     h.hyp("x86_random", x86_random(), body, max_examples=n * 2, seed_salt=3)
